@@ -3,10 +3,10 @@
 # check share log names and must be sequential; different checks run side by side).  Writes seeded/RESULTS.md.
 cd "$(dirname "$0")/.."
 par="${1:-6}"
-mkdir -p bin/recheck; rm -f bin/recheck/*.row
+mkdir -p bin/recheck   # one row file per (change, check); KEYS=<regex> restricts which changes are re-run, the table is assembled from all rows
 one() { # property id: all its seeds, sequentially
   pid=$1
-  for k in $(ls seeded | grep -E "^$pid-[A-Z]$"); do
+  for k in $(ls seeded | grep -E "^$pid-[A-Z]$" | grep -E "${KEYS:-.}"); do
     checks=$(python3 -c "import json;m=json.load(open('seeded/$k/meta.json'));print(' '.join(m.get('recheck',['$pid'])))")
     for c in $checks; do
       patch=seeded/$k/patch.diff; [ -f seeded/$k/patch-rebased.diff ] && patch=seeded/$k/patch-rebased.diff
@@ -15,12 +15,12 @@ one() { # property id: all its seeds, sequentially
       res="MISSED"; [ $rc -eq 1 ] && res="caught"
       [ $rc -ne 1 ] && python3 -c "import json,sys;sys.exit(0 if 'obsolete' in json.load(open('seeded/$k/meta.json')) else 1)" && res="obsolete (no longer breaks the property: see meta.json)"
       echo "$log" | grep -q 'PATCH-DOES-NOT-APPLY\|BUILD-FAILED' && res="n/a (patch/build)"
-      echo "| $k | $c | $res | $sig |" >> bin/recheck/$pid.row
+      echo "| $k | $c | $res | $sig |" > bin/recheck/$k.$c.row
       echo "$k $c $res"
     done
   done
 }
-export -f one
+export -f one; export KEYS
 ls seeded | grep -E '^C[0-9]+-[A-Z]$' | cut -d- -f1 | sort -u | xargs -P "$par" -I{} bash -c 'one {}'
 out=seeded/RESULTS.md
 echo "# Seeded changes against the current checks ($(date -u +%F' '%H:%M) UTC, /repo $(git -C /repo rev-parse --short HEAD), /verif $(git rev-parse --short HEAD))" > $out
